@@ -129,7 +129,9 @@ def keys_for(kinds, suffix_first=None, style="num"):
         if n == 0 and not (suffix_first and k in suffix_first):
             out.append(k)
         else:
-            sfx = {"num": str(n), "alpha": "abcdefgh"[n % 8] + str(n), "dotted": f"v{n}.{n + 5}", "word": f"second_pass-{n}"}[style]
+            other = [x for x in ("filter", "validation", "disparity", "multiscale", "matching_cost", "refinement") if x != k]
+            sfx = {"num": str(n), "alpha": "abcdefgh"[n % 8] + str(n), "dotted": f"v{n}.{n + 5}", "word": f"second_pass-{n}",
+                   "kindname": f"before_{other[n % len(other)]}"}[style]
             out.append(f"{k}.{sfx}")
     return out
 
